@@ -267,9 +267,12 @@ pub fn g_op_doc(ch: &mut Choices, allow_import: bool) -> MOpDoc {
                     }
                     t
                 };
-                let path = ch
-                    .pick(&["./a.graphql", "../b/c.graphql", "x", "./d/../e.graphql", "/abs/f.graphql", "./caf\u{e9}.graphql"])
-                    .to_string();
+                // mostly path-like, sometimes any string value (quotes, backslashes, line breaks, astral characters)
+                let path = if ch.chance(1, 4) {
+                    g_string(ch)
+                } else {
+                    ch.pick(&["./a.graphql", "../b/c.graphql", "x", "./d/../e.graphql", "/abs/f.graphql", "./caf\u{e9}.graphql"]).to_string()
+                };
                 doc.push(MExecDef::Import(MImport { targets, path }));
             }
         }
